@@ -41,41 +41,7 @@ Proof.
   replace (8 * k + p) with (p + k * 8) by lia. rewrite N.mod_add by discriminate. reflexivity.
 Qed.
 
-Theorem subspan_spec s bits :
-  span_ok s -> sp_off s + bits < two64 ->
-  let k := (sp_off s + bits) / 8 in
-  let s' := subspan s bits in
-  sp_data s' = skipn (N.to_nat k) (sp_data s) /\ sp_off s' = (sp_off s + bits) mod 8 /\
-  sp_size s' = sp_size s - k /\ 8 * k + sp_off s' = sp_off s + bits /\
-  (forall p, bit (sp_data s') p = bit (sp_data s) (8 * k + p)) /\
-  sp_bits s' = sp_size s * 8 - (sp_off s + bits) /\
-  (k <= sp_size s -> span_ok s').
-Proof.
-  intros (S1 & S2 & S3) Hw k s'. subst s'. unfold subspan. rewrite (w64_small (sp_off s + bits)) by exact Hw. fold k.
-  cbn [sp_data sp_off sp_size].
-  assert (T64 : two64 = 18446744073709551616) by reflexivity.
-  assert (Hsz : (if k <? sp_size s then sp_size s - k else 0) = sp_size s - k) by (destruct (N.ltb_spec k (sp_size s)); lia).
-  rewrite Hsz. repeat split; try reflexivity.
-  - subst k. lia.
-  - intros p. apply bit_skipn.
-  - unfold sp_bits. cbn [sp_size sp_off]. rewrite w64_small by lia.
-    destruct (N.ltb_spec ((sp_size s - k) * 8) ((sp_off s + bits) mod 8)); subst k; lia.
-  - cbn [sp_size sp_data]. unfold blen in *. rewrite skipn_length. lia.
-  - cbn [sp_data]. unfold blen in *. rewrite skipn_length. lia.
-  - cbn [sp_off]. pose proof (N.mod_lt (sp_off s + bits) 8). lia.
-Qed.
 
-Theorem subspan_bytes_spec s size_bytes :
-  span_ok s ->
-  let s' := subspan_bytes s size_bytes in
-  sp_data s' = skipn (N.to_nat (sp_off s / 8)) (sp_data s) /\ sp_off s' = sp_off s mod 8 /\
-  sp_size s' = N.min size_bytes (sp_size s - sp_off s / 8).
-Proof.
-  intros Hs. pose proof Hs as (S1 & S2 & S3).
-  destruct (subspan_spec s 0 Hs ltac:(lia)) as (H1 & H2 & H3 & _).
-  rewrite N.add_0_r in *. unfold subspan_bytes. cbn [sp_data sp_off sp_size]. rewrite H1, H2, H3.
-  repeat split. destruct (N.ltb_spec size_bytes (sp_size s - sp_off s / 8)); lia.
-Qed.
 
 Theorem subspan2_spec s bits_at size_bits :
   span_ok s -> sp_off s + bits_at < two64 -> size_bits + 8 < two64 ->
@@ -107,10 +73,11 @@ Theorem cpp_set_uxx_is_c s value len :
   span_ok s -> sp_off s + len < two64 ->
   cpp_set_uxx s value len = set_uxx false (sp_data s) (sp_size s) (sp_off s) value len.
 Proof.
-  intros (S1 & S2 & S3) Hw. unfold cpp_set_uxx, set_uxx.
+  intros (S1 & S2 & S3) _. unfold cpp_set_uxx, set_uxx.
   assert (T64 : two64 = 18446744073709551616) by reflexivity.
-  rewrite (w64_small (sp_size s * 8)), (w64_small (sp_off s + len)) by lia.
-  destruct (N.ltb_spec (sp_size s * 8) (sp_off s + len)); [reflexivity|].
+  rewrite (w64_small (sp_size s * 8)) by lia.
+  destruct (N.ltb_spec (sp_size s * 8) (sp_off s)); cbn [orb]; [reflexivity|].
+  destruct (N.ltb_spec (sp_size s * 8 - sp_off s) len); [reflexivity|].
   rewrite choose_min_spec. rewrite copyTo_refines; cbn [sp_data sp_off sp_size].
   - rewrite sp_bits_const by (rewrite T64; reflexivity). replace (N.min (N.min len 64) (8 * 8)) with (N.min len 64) by lia. reflexivity.
   - rewrite sp_bits_const by (rewrite T64; reflexivity). right. change (blen (tmp_any (w64 value))) with 8. lia.
@@ -252,27 +219,3 @@ Proof.
   unfold span_okb in Hb'. unfold buf_pre. exact Hb'.
 Qed.
 
-Theorem subspans_spec_b s bits size_bytes bits_at size_bits :
-  span_okb s = true -> (sp_off s + bits <? two64) && (sp_off s + bits_at <? two64) && (size_bits + 8 <? two64) = true ->
-  (let k := (sp_off s + bits) / 8 in
-   let s' := subspan s bits in
-   sp_data s' = skipn (N.to_nat k) (sp_data s) /\ sp_off s' = (sp_off s + bits) mod 8 /\
-   sp_size s' = sp_size s - k /\ 8 * k + sp_off s' = sp_off s + bits /\
-   (forall p, bit (sp_data s') p = bit (sp_data s) (8 * k + p)) /\
-   sp_bits s' = sp_size s * 8 - (sp_off s + bits)) /\
-  (let s' := subspan_bytes s size_bytes in
-   sp_data s' = skipn (N.to_nat (sp_off s / 8)) (sp_data s) /\ sp_off s' = sp_off s mod 8 /\
-   sp_size s' = N.min size_bytes (sp_size s - sp_off s / 8)) /\
-  (let k := (sp_off s + bits_at) / 8 in
-   let o := (sp_off s + bits_at) mod 8 in
-   if (sp_size s <? k) || ((sp_size s - k) * 8 <? o + size_bits)
-   then subspan2 s bits_at size_bits = inr TooSmall
-   else subspan2 s bits_at size_bits = inl (mkspan (skipn (N.to_nat k) (sp_data s)) ((o + size_bits) / 8) o) /\
-        k + (o + size_bits) / 8 <= sp_size s).
-Proof.
-  intros Hb H. apply span_okb_ok in Hb as [Hs _]. apply andb_prop in H as [H H3]. apply andb_prop in H as [H1 H2].
-  apply N.ltb_lt in H1, H2, H3.
-  split.
-  { destruct (subspan_spec s bits Hs H1) as (A & B & C & D & E & F & _). repeat split; assumption. }
-  split; [apply subspan_bytes_spec; assumption|apply subspan2_spec; assumption].
-Qed.
